@@ -19,6 +19,7 @@ package main
 
 import (
 	"fmt"
+	"hash/crc32"
 	"strconv"
 	"strings"
 	"time"
@@ -39,6 +40,13 @@ func batcherloadRun(c Case) ([]string, []string) {
 	outs := []string{}
 	for _, l := range c.Lines {
 		w := strings.Fields(l)
+		if len(w) == 5 && w[1] == "route" {
+			n, _ := strconv.Atoi(w[2])
+			workers, _ := strconv.Atoi(w[3])
+			depth, _ := strconv.Atoi(w[4])
+			outs = append(outs, batcherloadRoute(n, workers, depth))
+			continue
+		}
 		if len(w) != 6 || w[1] != "run" {
 			outs = append(outs, "bad-op")
 			continue
@@ -145,6 +153,109 @@ loop:
 	return fmt.Sprintf("cold=%d:%d maxage=%d batches=%d drain=%d", coldAge, coldQueued, maxAge, batches, drain)
 }
 
+// batcherloadRoute: partition routing under back-pressure. One record per batch (generic batch of size 1),
+// a handful of partition keys, `workers` workers with queues of `depth` batches; the consumer of one worker
+// (the owner of the busiest key) is slow, so its queue is full most of the time, the others are idle.
+// C05: "all records sharing a partition key ... are always handled by the same worker" - every batch must
+// arrive on worker crc32(key) % workers (IEEE, as utils.QuickHash), full queue or not.
+func batcherloadRoute(n, workers, depth int) string {
+	sh := shutdown.NewShutdownHandler()
+	in := make(chan *marshaller.MarshalledMessage, n+1)
+	seen := make(chan []*progress.Seen, 1024)
+	written := make(chan *ordered_map.OrderedMap, 1024)
+	st := make(chan stats.Stat, 1024)
+	keys := []string{"hot", "a", "b", "c", "public.t", "7"}
+	for i := 0; i < n; i++ {
+		k := keys[0]
+		if i%3 == 2 {
+			k = keys[1+(i/3)%(len(keys)-1)]
+		}
+		in <- &marshaller.MarshalledMessage{Operation: "INSERT", Json: []byte("{}"), TimeBasedKey: "1-1", Transaction: "1", WalStart: uint64(100 + i), PartitionKey: k}
+	}
+	b := batcher.NewBatcher(sh, in, seen, written, st, 1000, batch.NewGenericBatchFactory(1), workers,
+		3600*1000, 3600*1000, depth, 1<<40, batcher.BATCH_ROUTING_PARTITION)
+	done := make(chan struct{})
+	go func() {
+		for {
+			select {
+			case <-seen:
+			case <-written:
+			case <-st:
+			case <-done:
+				return
+			}
+		}
+	}()
+	owner := int(crc32.ChecksumIEEE([]byte(keys[0])) % uint32(workers))
+	type got struct {
+		w   int
+		key string
+		lsn uint64
+	}
+	res := make(chan got, n+16)
+	for wi, ch := range b.GetOutputChans() {
+		wi, ch := wi, ch
+		go func() {
+			for {
+				select {
+				case bt, ok := <-ch:
+					if !ok {
+						return
+					}
+					lsn := uint64(0)
+					if ms, ok := bt.GetPayload().([]*marshaller.MarshalledMessage); ok && len(ms) > 0 {
+						lsn = ms[0].WalStart
+					}
+					res <- got{wi, bt.GetPartitionKey(), lsn}
+					if wi == owner {
+						time.Sleep(300 * time.Microsecond) // slow sink: its queue backs up
+					}
+				case <-done:
+					return
+				}
+			}
+		}()
+	}
+	exited := make(chan struct{})
+	go func() { defer close(exited); b.StartBatching() }()
+	misrouted, total, outOfOrder := 0, 0, 0
+	first := ""
+	last := map[string]uint64{}
+	deadline := time.After(60 * time.Second)
+loop:
+	for total < n {
+		select {
+		case g := <-res:
+			total++
+			want := int(crc32.ChecksumIEEE([]byte(g.key)) % uint32(workers))
+			if g.w != want {
+				misrouted++
+				if first == "" {
+					first = fmt.Sprintf("%s:lsn%d:worker%d:owner%d", g.key, g.lsn, g.w, want)
+				}
+			}
+			if g.lsn < last[g.key] {
+				outOfOrder++
+			}
+			last[g.key] = g.lsn
+		case <-exited:
+			break loop
+		case <-deadline:
+			break loop
+		}
+	}
+	sh.CancelFunc()
+	select {
+	case <-exited:
+	case <-time.After(5 * time.Second):
+	}
+	close(done)
+	if first == "" {
+		first = "-"
+	}
+	return fmt.Sprintf("route batches=%d misrouted=%d outoforder=%d first=%s", total, misrouted, outOfOrder, first)
+}
+
 func batchKey(bt transport.Batch) string {
 	if p := bt.GetPartitionKey(); p != "" {
 		return p
@@ -153,6 +264,9 @@ func batchKey(bt transport.Batch) string {
 }
 
 func batcherloadGen(r *Rng, tier string) Case {
+	if r.Chance(40) {
+		return Case{[]string{fmt.Sprintf("batcherload route %d %d %d", 3000+r.Intn(3)*1000, r.Range(2, 5), Pick(r, []int{1, 1, 2, 4}))}}
+	}
 	// the backlog must outlive the bound by far: 6-8 M records take the loop 1.5-3 s (and still about 1 s when it never serves the ticker)
 	n := 6000000 + r.Intn(3)*1000000
 	tick := Pick(r, []int{2, 5, 10})
@@ -164,6 +278,15 @@ func batcherloadGen(r *Rng, tier string) Case {
 func batcherloadMonitor(lines, outs []string, m *Model) []Violation {
 	for i, l := range lines {
 		w := strings.Fields(l)
+		if i < len(outs) && len(w) == 5 && w[1] == "route" {
+			var nb, mis, ooo int
+			var first string
+			if _, err := fmt.Sscanf(outs[i], "route batches=%d misrouted=%d outoforder=%d first=%s", &nb, &mis, &ooo, &first); err == nil && (mis > 0 || ooo > 0) {
+				return []Violation{{"C05", fmt.Sprintf("partition routing under back-pressure (%s workers, queue depth %s, the owner of the busiest key slow): %d of %d batches were handed to "+
+					"a worker other than crc32(partition key) %% workers (first: %s), %d arrived out of delivery order for their key (%s => %s)", w[3], w[4], mis, nb, first, ooo, l, outs[i]), ""}}
+			}
+			continue
+		}
 		if i >= len(outs) || len(w) != 6 {
 			continue
 		}
